@@ -5,6 +5,22 @@ ROOT = os.path.dirname(os.path.dirname(os.path.abspath(__file__)))
 sys.path.insert(0, os.path.join(ROOT, "lib"))
 from props import PROPS
 
+
+def technique_of(cfg):
+    models = " ".join(cfg.get("models", []))
+    gen = "Generated/" in models
+    hand = any(not m.startswith("Generated/") for m in cfg.get("models", []))
+    parts = ["machine-checked proof in Coq 8.16.1 (theorems in coq/Properties, kernel-checked on every run, Print Assumptions recorded)"]
+    if gen and hand:
+        parts.append("about a model whose scanners/primitives are regenerated from the Go source by a translator on every run and whose remaining parts are hand-written executable Gallina")
+    elif gen:
+        parts.append("about a model regenerated from the Go source by a translator on every run")
+    else:
+        parts.append("about a hand-written executable Gallina model")
+    parts.append("tied to the code by differential correspondence on every run (extracted OCaml model vs implementation vs independent oracle), which also searches for a failing input when a proof or the correspondence breaks")
+    return ", ".join(parts)
+
+
 props = [json.loads(l) for l in open(os.path.join(ROOT, "properties.jsonl"))]
 hooks = []
 hp = os.path.join(ROOT, "MANIFEST.hooks")
@@ -25,7 +41,7 @@ for p in props:
             "engine": "coq-proof+correspondence",
             "level_claimed": {"category": "proof", "text": c["text"], "design_ref": c.get("design_ref", "DESIGN.md section 5 (%s)" % pid)},
             "level_note": c["note"],
-            "technique": c.get("technique", "machine-checked proof in Coq 8.16.1 of a model regenerated from the source by a translator, tied to the code by differential correspondence (extracted OCaml model vs implementation vs oracle)"),
+            "technique": c.get("technique", technique_of(cfg)),
         })
     else:
         na.append({"property_id": pid, "reason": (cfg or {}).get("na_reason", "check not built yet in this session (planned, see DESIGN.md section 5); not a claim that the technique cannot apply")})
